@@ -30,6 +30,46 @@ Theorem C18_decompress_never_out_of_fuel :
   forall s : list N, decompress s <> OutOfFuel.
 Proof. exact decompress_no_fuel. Qed.
 
+(* totality (for property C06 as well): on EVERY input — no well-formedness hypothesis, not even
+   that the elements are bytes — the model of decompress_stream neither panics nor runs out of
+   the fuel [length s] it is given, and a successful decompression is at most 4096 bytes per
+   chunk header processed ([n_chunks s], at most (|s| - 1) / 2 of them): no unbounded
+   expansion.  The remaining [Panic] sites of the model (the [unwrap] of the bit-count search,
+   [buf[..offset]], [buf[..len]], the slices of the copy) are thereby proved unreachable. *)
+Theorem C18_no_panic_decompress :
+  forall s : list N,
+    decompress s <> Panic /\ decompress s <> OutOfFuel /\
+    (forall out : list N, decompress s = Ok out ->
+       N.of_nat (length out) <= 4096 * N.of_nat (n_chunks s)) /\
+    (2 * n_chunks s <= length s - 1)%nat.
+Proof. exact decompress_total. Qed.
+
+(* the same for the project reader: EVERY dir stream and EVERY container (missing streams,
+   malformed compression, truncated or corrupt dir records, lengths and skips beyond the
+   stream, text offsets beyond the module stream) is answered by Ok or an error, for every
+   code-page decoder *)
+Theorem C18_no_panic_dir :
+  forall (decode : N -> list N -> list N),
+    (forall s : list N, parse_dir decode s <> Panic /\ parse_dir decode s <> OutOfFuel) /\
+    (forall streams : list (list N * list N),
+       vba_project decode streams <> Panic /\ vba_project decode streams <> OutOfFuel) /\
+    (forall (s : list N) (off : N),
+       module_content s off <> Panic /\ module_content s off <> OutOfFuel).
+Proof. exact dir_total. Qed.
+(* inputs on which the code used to panic, and the chunk count of the example container *)
+Example C18_no_panic_nonvacuous :
+  decompress [] = Err E_TRUNCATED /\
+  decompress [1; 5] = Err E_TRUNCATED /\
+  decompress [1; 0; 0] = Err E_CHUNK_SIGNATURE /\
+  decompress [1; 255; 63; 1; 2] = Err E_TRUNCATED /\
+  decompress [1; 2; 176; 1; 0; 0] = Err E_COPY_OFFSET /\
+  decompress [1; 3; 176; 2; 65; 255; 15] = Err E_CHUNK_OUTPUT /\
+  n_chunks (ovba_encode example_chunks) = 5%nat /\
+  parse_dir dec_id [1; 2; 3] = Err E_IO /\
+  module_content [1; 2] 5 = Err E_TRUNCATED /\
+  vba_project dec_id [(DIR_NAME, [1; 2; 176; 0; 7; 8])] = Err E_IO.
+Proof. exact ex_malformed_outcomes. Qed.
+
 (* the encoder really emits bytes, so the containers of the main theorem are byte strings *)
 Theorem C18_encoder_emits_bytes :
   forall cs : list chunk, Forall valid_chunk cs -> Forall (fun b => b < 256) (ovba_encode cs).
@@ -69,14 +109,16 @@ Proof. exact module_content_roundtrip. Qed.
 
 (* the dir stream: for every project description whose fields fit their size fields, written
    record by record as MS-OVBA 2.3.4.2 prescribes (optional PROJECTCOMPATVERSION; references of
-   the three kinds, REFERENCECONTROL with or without REFERENCEORIGINAL and extended name; modules
-   with optional read-only / private records), the three passes of vba.rs return the code page,
-   the references with their names (description and path as the libid texts say) and the modules
-   with name, stream name and text offset — for every code-page decoder.  Excepted (known
-   class 1): descriptions in which some REFERENCE lacks its optional NameRecord. *)
+   the three kinds, each WITH OR WITHOUT its optional NameRecord (2.3.4.2.2.1), REFERENCECONTROL
+   with or without REFERENCEORIGINAL and extended name; modules with optional read-only /
+   private records), the three passes of vba.rs return the code page, the references with their
+   names (description and path as the libid texts say; a reference without NameRecord is listed
+   with the empty name) and the modules with name, stream name and text offset — for every
+   code-page decoder.  No class of descriptions is excepted (the former known class 1, a
+   REFERENCE without NameRecord, was repaired in vba.rs). *)
 Theorem C18_dir_roundtrip :
   forall (decode : N -> list N -> list N) (p : proj) (refs : list reference),
-    valid_projb decode p = true -> known_C18_dir p = None ->
+    valid_projb p = true ->
     expected_refs decode (p_codepage p) (p_refs p) = Some refs ->
     parse_dir decode (encode_dir p)
     = Ok (p_codepage p, refs, map (expected_mod decode (p_codepage p)) (p_mods p)).
@@ -89,7 +131,7 @@ Proof. exact dir_roundtrip. Qed.
 Theorem C18_vba_project_roundtrip :
   forall (decode : N -> list N -> list N) (p : proj) (dir_chunks : list chunk)
          (mbs : list (mod_spec * mod_body)) (refs : list reference),
-    valid_projb decode p = true -> known_C18_dir p = None ->
+    valid_projb p = true ->
     expected_refs decode (p_codepage p) (p_refs p) = Some refs ->
     Forall valid_chunk dir_chunks -> known_C18 dir_chunks = None ->
     sem dir_chunks = encode_dir p ->
@@ -102,17 +144,52 @@ Theorem C18_vba_project_roundtrip :
                  mbs)).
 Proof. exact vba_project_roundtrip. Qed.
 
-(* known class 1, witness: two registered references, the second without NameRecord: the code
-   lists one reference, named after the first and described by the libid of the second *)
-Theorem C18_refuted_nameless_reference :
-  exists (p : proj) (refs : list reference),
-    valid_projb dec_id p = true /\ known_C18_dir p = Some 1 /\
-    expected_refs dec_id (p_codepage p) (p_refs p) = Some refs /\
-    parse_dir dec_id (encode_dir p)
-    <> Ok (p_codepage p, refs, map (expected_mod dec_id (p_codepage p)) (p_mods p)) /\
-    parse_dir dec_id (encode_dir p)
-    = Ok (1252, [mkref [115; 116; 100] [70; 111; 111] [67; 58; 92; 115; 46; 116; 108; 98]], []).
-Proof. exact refuted_nameless_reference. Qed.
+(* get_module: for EVERY decoder and on EVERY container the project reader accepts, the text
+   returned for a module name is the decoder of the project's code page (the one read from the
+   PROJECTCODEPAGE record of the decompressed dir stream) applied to exactly the bytes
+   get_module_raw returns, and these are the decompression of the stream the dir stream records
+   for a module of that name, taken from the text offset recorded there (offset applied to the
+   compressed stream).  [decode] being arbitrary, no shortcut on the bytes themselves (such as
+   returning them unchanged when they happen to be valid UTF-8) satisfies this. *)
+Theorem C18_module_text_is_codepage_decoding :
+  forall (decode : N -> list N -> list N) (streams : list (list N * list N)) (pj : project)
+         (name text : list N),
+    vba_project decode streams = Ok pj ->
+    get_module decode pj name = Some text ->
+    exists (dir d rest : list N) (refs : list reference) (mods : list module)
+           (stream_name : list N) (off : N) (s raw : list N),
+      get_stream streams DIR_NAME = Ok dir /\ decompress dir = Ok d /\
+      read_dir_information d = Ok (pj_codepage pj, rest) /\
+      parse_dir decode d = Ok (pj_codepage pj, refs, mods) /\
+      In (mkmod name stream_name off) mods /\
+      get_stream streams stream_name = Ok s /\ off <= N.of_nat (length s) /\
+      decompress (skipn (N.to_nat off) s) = Ok raw /\
+      get_module_raw (pj_modules pj) name = Some raw /\
+      text = decode (pj_codepage pj) raw.
+Proof. exact module_text_is_codepage_decoding. Qed.
+
+(* … and on the containers of C18_vba_project_roundtrip with distinct module names, every module
+   is found under its decoded name; its raw content is what its tokens mean and its text the
+   decoding of exactly these bytes with the project's code page *)
+Theorem C18_module_text_roundtrip :
+  forall (decode : N -> list N -> list N) (p : proj) (dir_chunks : list chunk)
+         (mbs : list (mod_spec * mod_body)) (refs : list reference) (mb : mod_spec * mod_body),
+    valid_projb p = true ->
+    expected_refs decode (p_codepage p) (p_refs p) = Some refs ->
+    Forall valid_chunk dir_chunks -> known_C18 dir_chunks = None ->
+    sem dir_chunks = encode_dir p ->
+    p_mods p = map fst mbs ->
+    Forall body_ok mbs ->
+    NoDup (map fst (project_streams decode p dir_chunks mbs)) ->
+    NoDup (map (fun mb => decode (p_codepage p) (ms_name (fst mb))) mbs) ->
+    In mb mbs ->
+    exists pj : project,
+      vba_project decode (project_streams decode p dir_chunks mbs) = Ok pj /\
+      get_module_raw (pj_modules pj) (decode (p_codepage p) (ms_name (fst mb)))
+      = Some (sem (mb_chunks (snd mb))) /\
+      get_module decode pj (decode (p_codepage p) (ms_name (fst mb)))
+      = Some (decode (p_codepage p) (sem (mb_chunks (snd mb)))).
+Proof. exact module_text_roundtrip. Qed.
 
 (* the fuel used by the loops of the project reader is enough on every container, malformed
    ones included: the model never answers OutOfFuel *)
@@ -154,13 +231,34 @@ Example C18_overlap_nonvacuous :
   copy_bytes 7 2 [120; 121] = [120; 121; 120; 121; 120; 121; 120; 121; 120].
 Proof. exact example_overlap. Qed.
 
+(* a project with eight references: nameless ones first, in the middle, last and two in a row,
+   of all three kinds; a named one whose name is empty *)
 Example C18_project_nonvacuous :
-  valid_projb dec_id ex_proj = true /\ known_C18_dir ex_proj = None /\
-  (exists refs, expected_refs dec_id 1252 (p_refs ex_proj) = Some refs /\ length refs = 3%nat) /\
+  valid_projb ex_proj = true /\
+  (exists refs, expected_refs dec_id 1252 (p_refs ex_proj) = Some refs /\ length refs = 8%nat) /\
   Forall valid_chunk ex_dir_chunks /\ sem ex_dir_chunks = encode_dir ex_proj /\
   p_mods ex_proj = map fst ex_bodies /\ Forall body_ok ex_bodies /\
   NoDup (map fst (project_streams dec_id ex_proj ex_dir_chunks ex_bodies)).
 Proof. exact ex_project_valid. Qed.
+(* a decoder that is not the identity, distinct module names: the text is the decoding *)
+Example C18_module_text_nonvacuous :
+  NoDup (map (fun mb => dec_shift 1252 (ms_name (fst mb))) ex_bodies) /\
+  NoDup (map fst (project_streams dec_shift ex_proj ex_dir_chunks ex_bodies)) /\
+  exists pj, vba_project dec_shift (project_streams dec_shift ex_proj ex_dir_chunks ex_bodies) = Ok pj /\
+    get_module dec_shift pj [333; 305]
+    = Some [339; 373; 354; 339; 373; 354; 339; 373; 354; 266].
+Proof. exact ex_project_module_text. Qed.
+(* regression: the witness of the former known class 1 (REFERENCENAME std + REGISTERED, then a
+   bare REGISTERED) is now read as two references, the second with the empty name *)
+Example C18_nameless_reference_reads_nonvacuous :
+  valid_projb ex_proj_nameless = true /\
+  expected_refs dec_id 1252 (p_refs ex_proj_nameless)
+  = Some [ mkref [115; 116; 100] [79; 76; 69] [67; 58; 92; 115; 46; 116; 108; 98];
+           mkref [] [70; 111; 111] [68; 58; 92; 116; 46; 116; 108; 98] ] /\
+  parse_dir dec_id (encode_dir ex_proj_nameless)
+  = Ok (1252, [ mkref [115; 116; 100] [79; 76; 69] [67; 58; 92; 115; 46; 116; 108; 98];
+                mkref [] [70; 111; 111] [68; 58; 92; 116; 46; 116; 108; 98] ], []).
+Proof. exact nameless_reference_reads. Qed.
 
 Check C18_decompress_inverts_encode :
   forall cs : list chunk,
@@ -171,10 +269,24 @@ Check C18_copy_token_codec :
     1 <= pos <= 4096 -> 1 <= off <= pos -> 3 <= len <= max_len pos ->
     pack pos off len < 65536 /\ copy_token_fields pos (pack pos off len) = Ok (len, off).
 Check C18_decompress_never_out_of_fuel : forall s : list N, decompress s <> OutOfFuel.
+Check C18_no_panic_decompress :
+  forall s : list N,
+    decompress s <> Panic /\ decompress s <> OutOfFuel /\
+    (forall out : list N, decompress s = Ok out ->
+       N.of_nat (length out) <= 4096 * N.of_nat (n_chunks s)) /\
+    (2 * n_chunks s <= length s - 1)%nat.
+Check C18_dir_roundtrip :
+  forall (decode : N -> list N -> list N) (p : proj) (refs : list reference),
+    valid_projb p = true ->
+    expected_refs decode (p_codepage p) (p_refs p) = Some refs ->
+    parse_dir decode (encode_dir p)
+    = Ok (p_codepage p, refs, map (expected_mod decode (p_codepage p)) (p_mods p)).
 
 Print Assumptions C18_decompress_inverts_encode.
 Print Assumptions C18_decompress_inverts_encode_fuel.
 Print Assumptions C18_decompress_never_out_of_fuel.
+Print Assumptions C18_no_panic_decompress.
+Print Assumptions C18_no_panic_dir.
 Print Assumptions C18_encoder_emits_bytes.
 Print Assumptions C18_copy_token_codec.
 Print Assumptions C18_bit_count_is_msovba.
@@ -185,5 +297,6 @@ Print Assumptions C18_vba_project_roundtrip.
 Print Assumptions C18_module_lookup.
 Print Assumptions C18_libid_split.
 Print Assumptions C18_libid_no_hash.
-Print Assumptions C18_refuted_nameless_reference.
+Print Assumptions C18_module_text_is_codepage_decoding.
+Print Assumptions C18_module_text_roundtrip.
 Print Assumptions C18_vba_project_never_out_of_fuel.
